@@ -103,6 +103,8 @@ impl Policy for CompoundPolicy {
     fn process(&self, log: &mut LogFile) -> anyhow::Result<()> {
         if self.trigger.trigger(log)? {
             log.roll();
+            #[cfg(feature = "verif_hooks")]
+            crate::verif::point("policy.closed");
             self.roller.roll(log.path())?;
         }
         Ok(())
